@@ -22,30 +22,31 @@ def isRespHookK : Option K → Bool
   | some (.responseHook _) => true
   | _ => false
 
-/-- what being suspended at `k` implies -/
-def pausedOK (c : Core) : K → Bool
-  | .reqHeadersHook _ => c.cs == .waitHdr && c.ss == .uninit && c.m.fRH && !c.m.fErr && !c.procReqErr
-  | .streamConn false => c.cs == .waitHdr && c.ss == .uninit && c.m.fRH && !c.m.fErr && !c.procReqErr
-  | .streamConn true => c.cs == .consume && c.ss == .waitHdr && c.m.fRH && !c.m.fErr && !c.procReqErr
-  | .requestHookStream => c.cs == .stream && c.m.fReq && !c.procReqErr
-  | .requestHook => c.cs == .done && c.ss == .waitHdr && c.m.fReq && !c.m.fRespH && !c.m.fErr && !c.attached && !c.isConnect
-  | .respHeadersEmul => c.cs == .done && c.ss == .waitHdr && c.m.fReq && c.m.fRespH && !c.m.fResp && !c.m.fErr && !c.attached
-  | .conn => c.cs == .done && c.ss == .waitHdr && c.m.fReq && !c.m.fRespH && !c.m.fErr && !c.attached && !c.isConnect
-  | .respHeadersHook _ => c.ss == .waitHdr && c.m.fRespH && !c.m.fResp && !c.m.fErr && c.attached
-  | .responseHook _ => c.m.fRespH && c.m.fResp && (c.ss == .waitHdr || c.ss == .consume || c.ss == .stream)
-  | .killedErr => c.m.fErr
-  | .peErr isResp ret => c.m.fErr && (isResp || c.cs == .errored) &&
+/-- what being suspended at `k` implies (a function of the few fields it mentions, so that it is
+    syntactically insensitive to updates of the others) -/
+def pausedOK (cs : CS) (ss : SS) (m : Mon) (procReqErr attached isConnect : Bool) : K → Bool
+  | .reqHeadersHook _ => cs == .waitHdr && ss == .uninit && m.fRH && !m.fErr && !procReqErr
+  | .streamConn false => cs == .waitHdr && ss == .uninit && m.fRH && !m.fErr && !procReqErr
+  | .streamConn true => cs == .consume && ss == .waitHdr && m.fRH && !m.fErr && !procReqErr
+  | .requestHookStream => cs == .stream && m.fReq && !procReqErr
+  | .requestHook => cs == .done && ss == .waitHdr && m.fReq && !m.fRespH && !m.fErr && !attached && !isConnect
+  | .respHeadersEmul => cs == .done && ss == .waitHdr && m.fReq && m.fRespH && !m.fResp && !m.fErr && !attached
+  | .conn => cs == .done && ss == .waitHdr && m.fReq && !m.fRespH && !m.fErr && !attached && !isConnect
+  | .respHeadersHook _ => ss == .waitHdr && m.fRespH && !m.fResp && !m.fErr && attached
+  | .responseHook _ => m.fRespH && m.fResp && (ss == .waitHdr || ss == .consume || ss == .stream)
+  | .killedErr => m.fErr
+  | .peErr isResp ret => m.fErr && (isResp || cs == .errored) &&
       (match ret with
-       | .top => imp isResp (c.cs != .consume && c.cs != .waitHdr)
-       | .streamHdr => isResp && c.cs == .waitHdr && c.ss == .uninit
-       | .streamLate => isResp && c.cs == .consume && c.ss == .waitHdr)
-  | .cbsHdr true => c.cs == .waitHdr && c.ss == .uninit && c.m.fRH && !c.m.fErr
-  | .cbsHdr false => c.ss == .waitHdr && c.m.fRespH && !c.m.fResp && !c.m.fErr
-  | .cbsErr true => c.m.fErr && (c.cs == .waitHdr || c.cs == .consume)
-  | .cbsErr false => c.m.fErr
-  | .invHdr => c.cs == .waitHdr && c.ss == .uninit && c.m.fRH && !c.m.fErr
-  | .invErr _ => c.m.fErr
-  | .connectHook | .connectOpen | .connectedHook | .connectErrHook => c.isConnect && c.cs == .done
+       | .top => imp isResp (cs != .consume && cs != .waitHdr)
+       | .streamHdr => isResp && cs == .waitHdr && ss == .uninit
+       | .streamLate => isResp && cs == .consume && ss == .waitHdr)
+  | .cbsHdr true => cs == .waitHdr && ss == .uninit && m.fRH && !m.fErr
+  | .cbsHdr false => ss == .waitHdr && m.fRespH && !m.fResp && !m.fErr
+  | .cbsErr true => m.fErr && (cs == .waitHdr || cs == .consume)
+  | .cbsErr false => m.fErr
+  | .invHdr => cs == .waitHdr && ss == .uninit && m.fRH && !m.fErr
+  | .invErr _ => m.fErr
+  | .connectHook | .connectOpen | .connectedHook | .connectErrHook => isConnect && cs == .done
 
 def InvB (c : Core) : Bool :=
   c.bad ||
@@ -80,7 +81,7 @@ def InvB (c : Core) : Bool :=
    -- flows without lifecycle hooks (CONNECT, no host header) are finished whenever the layer is not paused
    && imp (c.hasFlow && !m.fRH && c.paused.isNone && !c.pt) (c.cs == .errored)
    -- the suspension point
-   && (match c.paused with | none => true | some k => pausedOK c k)
+   && (match c.paused with | none => true | some k => pausedOK c.cs c.ss c.m c.procReqErr c.attached c.isConnect k)
    -- closure
    && imp (c.procReqErr && c.hasFlow) (c.cs == .errored)
    && imp (c.dropped && m.fRH) (m.fResp || m.fErr)
